@@ -321,7 +321,7 @@ def model_line(cfgs, variant=None, restore=None):
     return "session6 traj0=1 restart0=3%s cfgs=%s" % (extra, "|".join("RESET" if c == "RESET" else c.model() for c in [BASE] + cfgs))
 
 
-def scenario(cfgs, nsteps=3):
+def scenario(cfgs, nsteps=3, via_file=False):
     S = ["natoms %d" % NATOMS, "prefix out", "restartfreq 3", "temperature 300", "new"] + positions(0)
     S += ["config EOF", BASE.text().rstrip("\n"), "EOF", "objs", "globals " + " ".join(NAMED), "step"]
     for c in cfgs:
@@ -329,7 +329,13 @@ def scenario(cfgs, nsteps=3):
             S += ["script cv reset", "objs", "globals " + " ".join(NAMED)]
             continue
         S += c.putfiles()
-        S += ["config EOF", c.text().rstrip("\n"), "EOF", "objs", "globals " + " ".join(NAMED)]
+        if via_file:
+            # the other entry point for the same text: a configuration FILE (colvarmodule::read_config_file)
+            nfile = sum(1 for l in S if l.startswith("configfile "))
+            S += ["putfile cfg%d.in %s" % (nfile, c.text().rstrip("\n").replace("\n", "\\n")), "configfile cfg%d.in" % nfile,
+                  "objs", "globals " + " ".join(NAMED)]
+        else:
+            S += ["config EOF", c.text().rstrip("\n"), "EOF", "objs", "globals " + " ".join(NAMED)]
     S.append("echo FINAL")
     for kk in range(1, nsteps + 1):
         S += positions(kk) + ["step"]
